@@ -269,6 +269,7 @@ func Run(r *fw.Run) {
 		}
 		fills = append(fills, "%s", "%d", "%%", "%!", "%v", "\\n", "é", "\u212a", "\ufffd", "\u2028", "\xe2\x82")
 		fills = append(fills, enum.LongFills('n')...)
+		fills = append(fills, enum.BoundaryRunes()...)
 		r.Bounds["name_byte_sweep"] = fmt.Sprintf("3 positions x (256 byte values + %d other fills) x 2 set shapes", len(fills)-256)
 		for _, f := range fills {
 			for _, nm := range []string{f + "x", "a" + f + "b", "dir/x" + f} {
